@@ -342,8 +342,8 @@ def run_memory(rng):
 
 def floors(ctx, agg):
     p = []
-    if agg.counters.get('prefix_points', 0) < 2000:
-        p.append('fewer than 2000 prefix points observed')
+    if agg.counters.get('prefix_points', 0) < 1200:
+        p.append('fewer than 1200 prefix points observed')
     if agg.counters.get('held_back_lines', 0) < 200:
         p.append('too few points at which lines were legitimately held back (the workload does not exercise buffering)')
     return p
